@@ -306,7 +306,9 @@ EXCLUDED = {"today", "fromisoformat", "fromordinal", "fromisocalendar", "fromtim
             "max", "min", "resolution", "maketrans", "now", "utcnow", "combine", "strptime", "utcfromtimestamp"}
 PROBE = {"str": "a b", "int": 5, "float": 1.5, "date": date(2020, 2, 28), "floatmix": 1.5, "datetimemix": _dt(2020, 2, 28, 12, 30)}
 ARGS = [(), ("a",), ("b", "x"), (1,), (3, "*"), (5,), (["x", "y"],), ("%Y-%m",), ("ab",), ("utf-8",), (2, "big"),
-        ({"a": 1},), ("", ), (" ",), ("a", 1), (0,)]
+        ({"a": 1},), ("", ), (" ",), ("a", 1), (0,),
+        # start / end forms (find, rfind, index, rindex, count, startswith, endswith, replace with a count, split with a limit)
+        ("a", 0, 2), ("a", 1, -1), ("b", None, 3), ("a", -3, None), ("a", "x", 1), ("a", 2, 2), (None, 1), (" ", 1)]
 KWARGS = [{}, {}, {}, {"year": 2001}, {"sep": "a"}, {"maxsplit": 1}, {"keepends": True}, {"fillchar": "-"}]
 METHOD_EL = {
     "str": st.one_of(st.text(alphabet="abAB _1x{}", max_size=5), st.sampled_from(["", "a b", "Ab", "a\nb", "ß", "x=1", "2020-01-02"])),
@@ -328,7 +330,25 @@ def method_case(draw, tier="quick"):
     mask = draw(V.none_mask(n))
     vals = [None if f else x for x, f in zip(vals, mask)]
     names = sorted(x for x in dir(TYPES[k]) if not x.startswith("_") and x not in EXCLUDED)
-    picks = draw(st.lists(st.tuples(st.sampled_from(names), st.sampled_from(ARGS), st.sampled_from(KWARGS)), min_size=4, max_size=10))
+    generic = st.tuples(st.sampled_from(names), st.sampled_from(ARGS), st.sampled_from(KWARGS))
+    if k == "str":
+        # signature-aware calls: the (sub[, start[, end]]) family with every arity, incl. None and negative bounds
+        sub = st.sampled_from(["a", "b", "ab", "", " ", "A"])
+        lo, hi = st.sampled_from([None, 0, 1, 2, -3]), st.sampled_from([None, 1, 2, 4, -1])
+        subargs = st.one_of(st.tuples(sub), st.tuples(sub, lo), st.tuples(sub, lo, hi))
+        targeted = st.tuples(st.sampled_from(["find", "rfind", "index", "rindex", "count", "startswith", "endswith"]), subargs, st.just({}))
+        pick = st.one_of(generic, generic, targeted)
+    elif k == "int":
+        targeted = st.tuples(st.just("to_bytes"), st.tuples(st.sampled_from([1, 2, 8]), st.sampled_from(["big", "little"])),
+                             st.sampled_from([{}, {"signed": True}]))
+        pick = st.one_of(generic, generic, generic, targeted)
+    elif k in ("date", "datetimemix"):
+        targeted = st.tuples(st.sampled_from(["replace", "strftime", "isoformat"]), st.sampled_from([(), ("%Y-%m-%d",), ("%d/%m",)]),
+                             st.sampled_from([{}, {"year": 2001}, {"day": 1}, {"month": 2, "day": 28}]))
+        pick = st.one_of(generic, generic, targeted)
+    else:
+        pick = generic
+    picks = draw(st.lists(pick, min_size=4, max_size=10))
     return {"kind": k, "vals": vals, "picks": picks, "all_names": (not huge) and draw(st.integers(0, 5)) == 0}
 
 
